@@ -106,12 +106,12 @@ def config_jobs(cfgs, variants=None):
 
 
 def job_cost(j):
-    return sum(COST.get(c["f"], 0.6) for c in j["calls"]) + 0.05
+    # every job that touches viewshed runs in one process (22 s first-call JIT paid once): spread that cost over them
+    return sum(COST.get(c["f"], 0.6) + (1.0 if c["f"] == "viewshed" else 0.0) for c in j["calls"]) + 0.05
 
 
 def job_affinity(j):
-    fs = {c["f"] for c in j["calls"]}
-    return "viewshed" if fs == {"viewshed"} else None
+    return "viewshed" if any(c["f"] == "viewshed" for c in j["calls"]) else None
 
 
 def run_sessions(jobs, nproc=16):
@@ -281,7 +281,9 @@ def model_part(ctx):
 
 
 def replay_part(ctx, rng, focus):
-    # ---------------------------------------------------------------- R
+    from harness import alias_api
+    meta = alias_api.catalog_meta()
+    # ---------------------------------------------------------------- R: configurations enumerated by TLC
     allcfgs = enumerate_configs(ctx)
     allcfgs = [c for c in allcfgs if c["f"] not in ("bump",) and (not focus or c["f"] in focus)]
     if ctx.tier == "thorough":
@@ -291,11 +293,32 @@ def replay_part(ctx, rng, focus):
         ctx.note("quick tier: sweeps float32/C float64/strided int32/F float32/readonly + seeded %s on numpy; "
                  "float32/C float64/C int64/F on dask" % (extra,))
     jobs = config_jobs(sel)
-    cases = run_sessions(jobs)
+    ncfg = len(jobs)
+    # other parameter variants of every function (quick: float64/C; thorough: four configurations)
+    vsel = (("float64", "C"),) if ctx.tier != "thorough" else (("float32", "C"), ("float64", "F"), ("int16", "strided"), ("float64", "C"))
+    for c in allcfgs:
+        if (c["dtype"], c["layout"]) in vsel and c["supported"]:
+            for vi in range(1, meta[c["f"]]["nvariants"]):
+                if c["backend"] not in meta[c["f"]]["variant_backends"].get(vi, alias_api.BACKENDS):
+                    continue
+                jobs.append({"sid": len(jobs), "tag": "variant", "calls": [
+                    {"f": c["f"], "variant": vi, "args": None, "dtype": c["dtype"], "layout": c["layout"],
+                     "backend": c["backend"]}]})
+    nvar = len(jobs) - ncfg
+    # ---------------------------------------------------------------- T: call sequences generated by TLC
+    sjobs = session_jobs(ctx, ctx.pick(40, 400), ctx.pick(4, 6), rng, len(jobs))
+    sjobs += session_jobs(ctx, ctx.pick(30, 200), 3, rng, len(jobs) + len(sjobs), pipelines=True)
+    if focus:
+        sjobs = [j for j in sjobs if any(c["f"] in focus for c in j["calls"])][:12]
+    jobs += sjobs
+    # one fan-out for everything (packed by expected JIT cost)
+    allcases = run_sessions(jobs)
+    ctx.extra["t_replayed_s"] = round(time.time() - ctx.t0)
+    cases, vcases, scases = allcases[:ncfg], allcases[ncfg:ncfg + nvar], allcases[ncfg + nvar:]
+
     v = ctx.judge("Aliasing_Trace", [strip_case(c) for c in cases], name="configs", stateful=True, workers=2, parallel=8)
     nraised = handle(ctx, cases, v, "config")
     ctx.extra["configs_replayed"] = len(cases)
-    ctx.extra["t_configs_s"] = round(time.time() - ctx.t0)
     ctx.extra["configs_raised_outside_domain"] = nraised
     for c in cases[:3]:
         e = c["events"][0]
@@ -315,10 +338,12 @@ def replay_part(ctx, rng, focus):
     if ctx.tier == "thorough" or ctx.selftest:
         clean = next(strip_case(c) for c in cases if c["events"][0]["f"] == "slope" and c["events"][0]["cfg"][0] == "numpy"
                      and not c["events"][0]["raised"])
+
         def mutated(fn):
             c = json.loads(json.dumps(clean))
             fn(c)
             return c
+
         def m1(c): c["events"][0]["objs"][0]["val"] = "0" * 12
         def m2(c): c["events"][0]["res"]["bufs"] = c["events"][0]["objs"][0]["bufs"]
         def m3(c): c["events"][0]["res"]["coords"] = [p for p in c["events"][0]["res"]["coords"] if p[0] != "band"]
@@ -332,37 +357,20 @@ def replay_part(ctx, rng, focus):
         if [got.get(i) for i in range(6)] != want:
             raise core.MachineryError("Aliasing_Trace accepted a corrupted session: %s" % got)
 
-    # other parameter variants of every function (quick: float64/C; thorough: three configurations)
-    from harness import alias_api
-    meta = alias_api.catalog_meta()
-    vsel = (("float64", "C"),) if ctx.tier != "thorough" else (("float32", "C"), ("float64", "F"), ("int16", "strided"), ("float64", "C"))
-    vjobs = []
-    for c in allcfgs:
-        if (c["dtype"], c["layout"]) in vsel and c["supported"]:
-            for vi in range(1, meta[c["f"]]["nvariants"]):
-                if c["backend"] not in meta[c["f"]]["variant_backends"].get(vi, alias_api.BACKENDS):
-                    continue
-                vjobs.append({"sid": len(vjobs), "tag": "variant", "calls": [
-                    {"f": c["f"], "variant": vi, "args": None, "dtype": c["dtype"], "layout": c["layout"],
-                     "backend": c["backend"]}]})
-    vcases = run_sessions(vjobs)
     vv = ctx.judge("Aliasing_Trace", [strip_case(c) for c in vcases], name="variants", stateful=True, workers=2, parallel=4)
     handle(ctx, vcases, vv, "variant")
     ctx.extra["variant_calls_replayed"] = len(vcases)
-    ctx.extra["t_variants_s"] = round(time.time() - ctx.t0)
 
-    # ---------------------------------------------------------------- T: call sequences
-    sjobs = session_jobs(ctx, ctx.pick(40, 400), ctx.pick(4, 6), rng, 0)
-    sjobs += session_jobs(ctx, ctx.pick(30, 200), 3, rng, len(sjobs), pipelines=True)
-    if focus:
-        sjobs = [j for j in sjobs if any(c["f"] in focus for c in j["calls"])][:12]
-    scases = run_sessions(sjobs)
     sv = ctx.judge("Aliasing_Trace", [strip_case(c) for c in scases], name="sessions", stateful=True, workers=2, parallel=4)
     handle(ctx, scases, sv, "session")
     ctx.extra["sessions_replayed"] = len(scases)
     ctx.extra["session_calls"] = sum(1 for c in scases for e in c["events"] if e["ev"] == "call")
     for c in scases[:2]:
         ctx.sample({"session": [(e["f"], e["args"], "raised" if e["raised"] else e["res"]["id"]) for e in c["events"] if e["ev"] == "call"]})
+    keys = {}
+    for k, _cl, _p in ctx.violations:
+        keys[k] = keys.get(k, 0) + 1
+    ctx.extra["violation_keys"] = keys
 
 
 META = {
